@@ -19,7 +19,13 @@ from variants import VARIANTS  # noqa: E402
 
 
 def apply(root, edits):
-    for path, old, new in edits:
+    for e in edits:
+        if len(e) == 2 and e[0] == "patch":
+            r = subprocess.run(["patch", "-p1", "-s", "-d", root, "-i", os.path.join(HERE, "patches", e[1])], capture_output=True, text=True)
+            if r.returncode != 0:
+                raise SystemExit("patch variant does not apply: %s\n%s" % (e[1], r.stdout + r.stderr))
+            continue
+        path, old, new = e
         p = os.path.join(root, path)
         s = open(p).read()
         if s.count(old) != 1:
